@@ -18,7 +18,7 @@ import time
 VERIF = os.path.dirname(os.path.dirname(os.path.abspath(__file__)))
 LEAN_DIR = os.path.join(VERIF, "lean")
 BUILD_DIR = os.path.join(VERIF, "build")
-EVIDENCE_DIR = os.path.join(VERIF, "evidence")
+EVIDENCE_DIR = os.environ.get("VERIF_EVIDENCE_DIR") or os.path.join(VERIF, "evidence")
 REPLAY_DIR = os.path.join(VERIF, "replays")
 CORPUS_DIR = os.path.join(VERIF, "corpus")
 KNOWN_FINDINGS = os.path.join(VERIF, "known_findings.json")
